@@ -155,6 +155,40 @@ Proof.
   destruct Hxd as [Hs|He]; [left; exact Hs|right; apply oslot_eqb_eq; exact He].
 Qed.
 
+(* ------------------------------------------------------------------ what can be packed *)
+Lemma storable_aget a s : storable_atom a = true -> storable (aget a s) = true.
+Proof.
+  unfold storable_atom. cbn [forallb]. intro H.
+  repeat (apply andb_true_iff in H; let Hx := fresh "Hx" in destruct H as [Hx H]).
+  destruct s; try assumption; reflexivity.
+Qed.
+
+Lemma storable_bget b s : storable_bond b = true -> storable (bget b s) = true.
+Proof.
+  unfold storable_bond. cbn [forallb]. intro H.
+  repeat (apply andb_true_iff in H; let Hx := fresh "Hx" in destruct H as [Hx H]).
+  destruct s; try assumption; reflexivity.
+Qed.
+
+Lemma storable_encode W o : storable_obj o = true -> storable (encode W o) = true.
+Proof.
+  unfold storable_obj. intro H.
+  apply andb_true_iff in H; destruct H as [H Hb].
+  apply andb_true_iff in H; destruct H as [H Ha].
+  apply andb_true_iff in H; destruct H as [H H4].
+  apply andb_true_iff in H; destruct H as [H H3].
+  apply andb_true_iff in H; destruct H as [H1 H2].
+  unfold encode. cbn [storable]. apply forallb_forall. intros v Hv.
+  apply in_map_iff in Hv. destruct Hv as [s [<- _]].
+  destruct s; cbn [oget storable]; try assumption; try reflexivity.
+  - apply forallb_forall. intros v Hv. apply in_map_iff in Hv. destruct Hv as [a [<- Ha']].
+    unfold enc_atom. cbn [storable]. apply forallb_forall. intros v Hv. apply in_map_iff in Hv.
+    destruct Hv as [s [<- _]]. apply storable_aget. rewrite forallb_forall in Ha. apply Ha; exact Ha'.
+  - apply forallb_forall. intros v Hv. apply in_map_iff in Hv. destruct Hv as [b [<- Hb']].
+    unfold enc_bond. cbn [storable]. apply forallb_forall. intros v Hv. apply in_map_iff in Hv.
+    destruct Hv as [s [<- _]]. apply storable_bget. rewrite forallb_forall in Hb. apply Hb; exact Hb'.
+Qed.
+
 (* ------------------------------------------------------------------ the body of the deserialiser *)
 Section Main.
   Variable W : wiring.
@@ -202,6 +236,7 @@ Section Main.
     intros Hwf Hget.
     destruct wiring_facts as (_ & HmA & HmB & HmC & HmQ & HaC & HaQ & Hens & Haeq & Hdv & Hbeq & Hb1 & Hb2).
     unfold wf_obj, wf_objb in Hwf.
+    apply andb_true_iff in Hwf; destruct Hwf as [Hwf _].
     apply andb_true_iff in Hwf; destruct Hwf as [Hwf Hshape].
     apply andb_true_iff in Hwf; destruct Hwf as [Hwf Hbonds].
     apply andb_true_iff in Hwf; destruct Hwf as [Hwf Hatoms].
@@ -268,7 +303,9 @@ Section Main.
     wf_obj (w_ens W) o -> roundtrip W o = Some (norm_obj W o).
   Proof.
     intro Hwf. destruct wiring_facts as (Hc & _).
-    unfold roundtrip, decode, encode. cbn [mnorm seq_items]. rewrite !map_map, map_length.
+    assert (Hst : storable_obj o = true).
+    { unfold wf_obj, wf_objb in Hwf. apply andb_true_iff in Hwf. tauto. }
+    unfold roundtrip. cbv zeta. rewrite (storable_encode W o Hst). unfold decode, encode. cbn [mnorm seq_items]. rewrite !map_map, map_length.
     rewrite (Forall2_length' _ _ _ Hc), Nat.eqb_refl. cbn [negb].
     apply decode_get_norm; [exact Hwf|].
     intros s Hs.
